@@ -13,14 +13,16 @@ import (
 
 // coreSeen remembers, per history, what has already been reported / observed (reset on every `N`).
 type coreSeenT struct {
-	h        int
-	reported map[string]bool
-	resolved map[string]string // market uid -> frozen "status|winners|ts"
-	betSeen  map[string]bool
-	request  map[string]sdkmath.Int // bet uid -> requested stake (amount on the message minus the bet fee)
-	charged  map[string]sdkmath.Int // bet uid -> what the wager message debited from the bettor
-	due      map[string]*settleDue  // resolved market uid -> settlement deadline in end-blocks
-	ebCount  int
+	h             int
+	reported      map[string]bool
+	resolved      map[string]string // market uid -> frozen "status|winners|ts"
+	betSeen       map[string]bool
+	request       map[string]sdkmath.Int // bet uid -> requested stake (amount on the message minus the bet fee)
+	settledHeight map[string]int64       // bet uid -> height of the end-block that settled it
+	grants        map[string]*liveGrant  // granter/grantee/kind -> what the harness itself granted (C09 grant_live)
+	charged       map[string]sdkmath.Int // bet uid -> what the wager message debited from the bettor
+	due           map[string]*settleDue  // resolved market uid -> settlement deadline in end-blocks
+	ebCount       int
 }
 
 // settleDue: C05 bound for one resolved market
@@ -30,11 +32,17 @@ type settleDue struct {
 	done         bool
 }
 
+// liveGrant is the harness's own record of an authz grant it created: the expiry the granter chose and what is left of the limit.
+type liveGrant struct {
+	expiry int64
+	left   sdkmath.Int
+}
+
 var coreSeen coreSeenT
 
 func coreReset(h int) {
 	if coreSeen.h != h || coreSeen.reported == nil {
-		coreSeen = coreSeenT{h: h, reported: map[string]bool{}, resolved: map[string]string{}, betSeen: map[string]bool{}, request: map[string]sdkmath.Int{}, charged: map[string]sdkmath.Int{}, due: map[string]*settleDue{}}
+		coreSeen = coreSeenT{h: h, reported: map[string]bool{}, resolved: map[string]string{}, betSeen: map[string]bool{}, request: map[string]sdkmath.Int{}, charged: map[string]sdkmath.Int{}, due: map[string]*settleDue{}, settledHeight: map[string]int64{}, grants: map[string]*liveGrant{}}
 	}
 }
 
@@ -381,6 +389,20 @@ func coreMonitors(out *Out, h int, e *Env, ix *coreIx, d *coreDump, markets []*c
 			failOnce(out, h, "C08", "listed_once", "bet-index", b.UID, fmt.Sprintf("bet %d status %v listed pending %d settled %d", uidN(b.UID), b.Status, pc[b.UID], sc[b.UID]))
 		}
 	}
+	// "listed exactly once as settled at its settlement height": the settled index files the bet under the height
+	// recorded on the bet, and that height is the block in which it was settled (checked when it becomes settled)
+	for _, b := range d.bets {
+		if b.Status != bettypes.Bet_STATUS_SETTLED {
+			continue
+		}
+		hs := d.settledAt[b.UID]
+		if len(hs) != 1 || hs[0] != b.SettlementHeight {
+			failOnce(out, h, "C08", "settled_at_height", "settled-index-height", b.UID, fmt.Sprintf("bet %d records settlement height %d, settled index lists it under %v", uidN(b.UID), b.SettlementHeight, hs))
+		}
+		if at, ok := coreSeen.settledHeight[b.UID]; ok && at != b.SettlementHeight {
+			failOnce(out, h, "C08", "settled_at_height", "recorded-height", b.UID, fmt.Sprintf("bet %d was settled by the end-block of height %d but records settlement height %d", uidN(b.UID), at, b.SettlementHeight))
+		}
+	}
 	if len(pend)+len(sett) != len(d.bets) {
 		failOnce(out, h, "C08", "listed_once", "bet-index-total", "", fmt.Sprintf("pending %d + settled %d != bets %d", len(pend), len(sett), len(d.bets)))
 	}
@@ -442,6 +464,10 @@ func endBlockMonitors(out *Out, h int, e *Env, ix *coreIx, pre, post *coreDump, 
 			continue
 		}
 		nBets++
+		coreSeen.settledHeight[b.UID] = e.Ctx.BlockHeight()
+		if b.SettlementHeight != e.Ctx.BlockHeight() {
+			failOnce(out, h, "C08", "settled_at_height", "recorded-height", b.UID, fmt.Sprintf("bet %d was settled by the end-block of height %d but records settlement height %d", uidN(b.UID), e.Ctx.BlockHeight(), b.SettlementHeight))
+		}
 		m := mById[b.MarketUID]
 		sumBet, sumProfit := zero, zero
 		for _, f := range b.BetFulfillment {
@@ -574,6 +600,45 @@ func grantLimit(e *Env, granter, grantee int, kind int) (sdkmath.Int, bool) {
 	return sdkmath.ZeroInt(), false
 }
 
+// The harness's own ledger of the authz grants it created (C09 "a delegated deposit or withdrawal requires an existing
+// grant"): independent of what the authz store says, so a grant that outlives the expiry its granter chose, or
+// covers more than its limit, is seen.
+func grantKey(granter, grantee, kind int) string {
+	return fmt.Sprintf("%d/%d/%d", granter, grantee, kind)
+}
+
+func noteGrant(h, granter, grantee, kind int, limit, expiry int64) {
+	coreReset(h)
+	coreSeen.grants[grantKey(granter, grantee, kind)] = &liveGrant{expiry: expiry, left: sdkmath.NewInt(limit)}
+}
+
+func noteRevoke(h, granter, grantee, kind int) {
+	coreReset(h)
+	delete(coreSeen.grants, grantKey(granter, grantee, kind))
+}
+
+// grantLiveCheck runs after a SUCCESSFUL delegated deposit/withdrawal of `amount` by grantee on behalf of granter.
+func grantLiveCheck(out *Out, h int, e *Env, granter, grantee, kind int, amount sdkmath.Int, key string) {
+	g := coreSeen.grants[grantKey(granter, grantee, kind)]
+	now := e.Ctx.BlockTime().Unix()
+	what := []string{"deposit", "withdrawal"}[kind]
+	switch {
+	case g == nil:
+		failOnce(out, h, "C09", "grant_live", "never-granted-or-revoked", key, fmt.Sprintf("delegated %s of %s by %d for %d: no grant was given (or it was revoked / used up)", what, amount, grantee, granter))
+	case g.expiry >= 0 && now > g.expiry:
+		failOnce(out, h, "C09", "grant_live", "expired-grant-used", key, fmt.Sprintf("delegated %s of %s by %d for %d at block time %d: the grant expired at %d", what, amount, grantee, granter, now, g.expiry))
+	case amount.GT(g.left):
+		failOnce(out, h, "C09", "grant_live", "limit-exceeded", key, fmt.Sprintf("delegated %s of %s by %d for %d: only %s was left of the grant", what, amount, grantee, granter, g.left))
+	}
+	if g != nil {
+		g.left = g.left.Sub(amount)
+		if !g.left.IsPositive() {
+			delete(coreSeen.grants, grantKey(granter, grantee, kind))
+		}
+	}
+	out.Count("mon.C09.grant_live")
+}
+
 type housePre struct {
 	bal      map[string]sdkmath.Int
 	pool     sdkmath.Int
@@ -669,6 +734,7 @@ func withdrawMonitor(out *Out, h int, e *Env, ix *coreIx, pre housePre, creator,
 				failOnce(out, h, "C09", "grant_consumed_exactly", "withdraw", key, fmt.Sprintf("grant %s -> %s for a withdrawal of %s", pre.limit, after, w))
 			}
 		}
+		grantLiveCheck(out, h, e, pd, creator, 1, w, key)
 	}
 	// count
 	dep, found := e.App.HouseKeeper.GetDeposit(e.Ctx, pre.part.ParticipantAddress, market, idx)
@@ -716,6 +782,7 @@ func depositMonitor(out *Out, h int, e *Env, ix *coreIx, pre housePre, creator, 
 				failOnce(out, h, "C09", "grant_consumed_exactly", "deposit", key, fmt.Sprintf("grant %s -> %s for a deposit of %s", pre.limit, after, amount))
 			}
 		}
+		grantLiveCheck(out, h, e, who, creator, 0, amount, key)
 		out.Count("mon.C09.deposit.delegated")
 	}
 	// the new participation belongs to the depositor
@@ -726,7 +793,6 @@ func depositMonitor(out *Out, h int, e *Env, ix *coreIx, pre housePre, creator, 
 	}
 	out.Count("mon.C09.deposit")
 }
-
 
 // noteResolved records, when a market is resolved, the number of end-blocks within which it must be completely
 // settled: ceil(B/N_bet) + ceil(P/N_ob) where B / P are the pending bets / unpaid participations of all markets
